@@ -260,6 +260,9 @@ fn check_result(c: &MCase, r: &TxResult, before: &BTreeMap<Vec<u8>, Vec<u8>>, w:
         let owned = k == b"contract_info" || (path < 2 && k == b"config") || (path == 2 && (k.starts_with(&infl) || k.starts_with(&wait)));
         if !owned && before.get(k) != after.get(k) {
             viol.push(Violation { stop: true, prop: "C18", clause: "other_data_untouched", step: 1, msg: format!("record {:?} changed", String::from_utf8_lossy(k)) });
+            if k == b"config" && j(before, b"config")["stopped"] != j(after, b"config")["stopped"] {
+                viol.push(Violation { stop: true, prop: "C10", clause: "upgrade_keeps_halted_flag", step: 1, msg: "the halted flag changed through a migration".into() });
+            }
             break;
         }
     }
@@ -270,6 +273,9 @@ fn check_result(c: &MCase, r: &TxResult, before: &BTreeMap<Vec<u8>, Vec<u8>>, w:
             for f in ["native_token_denom", "liquid_stake_token_denom", "treasury_address", "monitors", "validators", "batch_period", "unbonding_period", "protocol_fee_config", "multisig_address_config", "minimum_liquid_stake_amount", "ibc_channel_id", "stopped", "oracle_address"] {
                 if old[f] != new[f] {
                     viol.push(Violation { stop: true, prop: "C18", clause: "old_path_field_by_field", step: 1, msg: format!("0.4.18->0.4.20 changed {}: {} -> {}", f, old[f], new[f]) });
+                    if f == "stopped" {
+                        viol.push(Violation { stop: true, prop: "C10", clause: "upgrade_keeps_halted_flag", step: 1, msg: format!("the halted flag changed from {} to {} through a migration", old[f], new[f]) });
+                    }
                 }
             }
             if new["send_fees_to_treasury"] != msg["v0_4_18_to_v0_4_20"]["send_fees_to_treasury"] {
@@ -300,6 +306,13 @@ fn check_result(c: &MCase, r: &TxResult, before: &BTreeMap<Vec<u8>, Vec<u8>>, w:
             for (n, o, f) in pairs {
                 if n != o {
                     viol.push(Violation { stop: true, prop: "C18", clause: "old_path_field_by_field", step: 1, msg: format!("0.4.20->1.0.0 field {}: new {} vs old {}", f, n, o) });
+                    // two of these fields carry other properties' guarantees through the upgrade
+                    if f == "stopped" {
+                        viol.push(Violation { stop: true, prop: "C10", clause: "upgrade_keeps_halted_flag", step: 1, msg: format!("the halted flag changed from {} to {} through a migration: only the admin's ResumeContract may lift a halt", o, n) });
+                    }
+                    if f == "protocol prefix" {
+                        viol.push(Violation { stop: true, prop: "C09", clause: "upgrade_keeps_hook_prefix", step: 1, msg: format!("after the migration the ibc-hooks accounts are derived under prefix {} instead of the supplied {}", n, o) });
+                    }
                 }
             }
         }
